@@ -36,6 +36,12 @@ def make_fault(rng, klass, macros_with_arg=None, namespaces=None):
                   ".word defined(fzother) + 2 * @", ".loop @ { nop }", ".align @", ".word 1, 2, @", ".dword @", ".const fzc9 = @ + 1",
                   ".var fzv9 = @", ".if 1 + @ { nop } else { inx }", ".text @", "jmp @", "bne @", "lda @,x", "lda (@),y", "* = @",
                   ".byte @.sub", ".loop 1 + @ { nop }", ".if @ == 1 && defined(fzother) { nop }"]
+        # the name as the RIGHT operand of `&&` / `||` whose left operand already decides the result (constant 0 / non-zero):
+        # the evaluator does not short-circuit, an undefined symbol in a subexpression that does not matter is still an error
+        shapes += [".if 0 && @ { nop }", ".if 1 || @ { nop }", ".byte 0 && @", "lda #1 || @", ".byte (0 && @) + 1",
+                   ".if defined(fzother) && @ { nop } else { inx }", ".if 2 > 3 && @ == 1 { nop }", ".word 5 || @",
+                   ".loop 0 && @ { nop }", ".if 7 || @ > 3 { nop }", ".if 0 && 1 && @ { nop }", ".const fzc8 = 0 && @", "ldx #(1 || @)"]
+        shapes += ["%s(0 && @)" % m for m in (macros_with_arg or [])]
         shapes += ["%s(@)" % m for m in (macros_with_arg or [])] + ["%s(1 + @)" % m for m in (macros_with_arg or [])]
         sh = r.choice(shapes)
         at = sh.index("@")
